@@ -14,7 +14,7 @@ fn s(x: &str) -> String {
 
 pub fn store_probe() -> Probe {
     Probe {
-        keys: ["a", "b", "a/b", "a/b/c", "a//b", "ä/β", "zzz", "", "a/", "a/?"].iter().map(|k| s(k)).collect(),
+        keys: ["a", "ab", "a/b", "a/b/c", "a//b", "ä/β", "zzz", "", "a/", "a/?"].iter().map(|k| s(k)).collect(),
         patterns: ["?", "#", "a/?", "a/#", "?/b", "?/#", "a/?/c", "a/#/b", "ä/?", "a//?", "a/b/#", "zzz/#", "zzz/#/b", "?/?/#"]
             .iter()
             .map(|k| s(k))
@@ -26,7 +26,7 @@ pub fn store_probe() -> Probe {
             Some(s("a/b/c")),
             Some(s("a/")),
             Some(s("a//b")),
-            Some(s("b")),
+            Some(s("ab")),
             Some(s("ä")),
             Some(s("ä/β")),
             Some(s("zzz")),
@@ -38,12 +38,12 @@ pub fn store_probe() -> Probe {
 
 pub const IMPORT_PLAIN: &str = r#"{"data":{"t":{"a":{"v":5,"t":{"b":{"v":6}}},"n":{"t":{"m":{"v":7}}}}}}"#;
 pub const IMPORT_CAS: &str = r#"{"data":{"t":{"a":{"t":{"b":{"v":{"Cas":[8,5]}}}}}}}"#;
-pub const IMPORT_DEEP: &str = r#"{"data":{"t":{"ä":{"t":{"β":{"v":"x"}}},"b":{"v":{"Cas":[1,1]}}}}}"#;
+pub const IMPORT_DEEP: &str = r#"{"data":{"t":{"ä":{"t":{"β":{"v":"x"}}},"ab":{"v":{"Cas":[1,1]}}}}}"#;
 
 /// C01: set, cset, delete, pdelete, import by two clients over a small key/pattern alphabet.
 pub fn c01_ops() -> Vec<Op> {
     let mut ops = vec![];
-    let keys = ["a", "b", "a/b", "a/b/c", "a//b", "ä/β"];
+    let keys = ["a", "ab", "a/b", "a/b/c", "a//b", "ä/β"];
     for k in keys {
         ops.push(Op::Set(A, s(k), json!(1)));
     }
@@ -86,11 +86,11 @@ pub fn c01(known: &Known) -> CoreScenario {
 /// C05: C01's mutators (reduced) + ls subscriptions on existing, not yet existing and root parents.
 pub fn c05(known: &Known) -> CoreScenario {
     let mut ops = vec![];
-    for k in ["a", "b", "a/b", "a/b/c", "a//b"] {
+    for k in ["a", "ab", "a/b", "a/b/c", "a//b"] {
         ops.push(Op::Set(A, s(k), json!(1)));
         ops.push(Op::Delete(A, s(k)));
     }
-    for (k, ver) in [("a/b", 0u64), ("a/b", 1), ("a/b/c", 0), ("a/b/c", 3), ("x/y/z", 5), ("b", 2)] {
+    for (k, ver) in [("a/b", 0u64), ("a/b", 1), ("a/b/c", 0), ("a/b/c", 3), ("x/y/z", 5), ("ab", 2)] {
         ops.push(Op::CSet(A, s(k), json!(3), ver));
     }
     for p in ["?", "#", "a/?", "a/#", "?/b", "a/?/c", "a/#/b"] {
@@ -100,7 +100,7 @@ pub fn c05(known: &Known) -> CoreScenario {
         ops.push(Op::Import(s(d)));
     }
     ops.push(Op::Set(A, s("a/?"), json!(1)));
-    let parents = [None, Some("a"), Some("a/b"), Some("zzz"), Some("b"), Some("n"), Some("x/y")];
+    let parents = [None, Some("a"), Some("a/b"), Some("zzz"), Some("ab"), Some("n"), Some("x/y")];
     for (i, p) in parents.iter().enumerate() {
         ops.push(Op::SubscribeLs(A, 100 + i as u64, p.map(s)));
     }
@@ -121,7 +121,7 @@ pub fn c05(known: &Known) -> CoreScenario {
 /// C03: mutators + publish + (p)subscribe/unsubscribe/disconnect at every position.
 pub fn c03(known: &Known, max_subs: usize) -> CoreScenario {
     let mut ops = vec![];
-    for k in ["a", "a/b", "b"] {
+    for k in ["a", "a/b", "ab"] {
         ops.push(Op::Set(A, s(k), json!(1)));
         ops.push(Op::Set(A, s(k), json!(2)));
         ops.push(Op::Delete(A, s(k)));
@@ -137,14 +137,14 @@ pub fn c03(known: &Known, max_subs: usize) -> CoreScenario {
     ops.push(Op::Import(s(IMPORT_PLAIN)));
     ops.push(Op::Import(s(IMPORT_CAS)));
     ops.push(Op::Publish(s("a/b"), json!(9)));
-    ops.push(Op::Publish(s("b"), json!(9)));
+    ops.push(Op::Publish(s("ab"), json!(9)));
     ops.push(Op::SPubInit(A, 50, s("a/b")));
     ops.push(Op::SPub(A, 50, json!(8)));
     // subscriptions: (unique, live_only)
     ops.push(Op::Subscribe(A, 1, s("a/b"), false, false));
     ops.push(Op::Subscribe(A, 2, s("a/b"), true, false));
     ops.push(Op::Subscribe(B, 3, s("a/b"), false, true));
-    ops.push(Op::Subscribe(B, 4, s("b"), true, true));
+    ops.push(Op::Subscribe(B, 4, s("ab"), true, true));
     ops.push(Op::PSubscribe(B, 5, s("a/?"), false, false));
     ops.push(Op::PSubscribe(B, 6, s("a/#"), false, false));
     ops.push(Op::PSubscribe(B, 7, s("a/#"), true, false));
@@ -160,7 +160,7 @@ pub fn c03(known: &Known, max_subs: usize) -> CoreScenario {
     ops.push(Op::Disconnect(A));
     ops.push(Op::Disconnect(B));
     let probe = Probe {
-        keys: vec![s("a"), s("a/b"), s("b"), s("n/m")],
+        keys: vec![s("a"), s("a/b"), s("ab"), s("n/m")],
         patterns: vec![s("a/?"), s("a/#"), s("#"), s("?/b")],
         parents: vec![None, Some(s("a"))],
         parent_patterns: vec![],
@@ -171,7 +171,7 @@ pub fn c03(known: &Known, max_subs: usize) -> CoreScenario {
 }
 
 /// C06: lock / acquireLock / releaseLock / session end by three clients over nested keys.
-pub fn c06(known: &Known, clients: &[C], keys: &[&str]) -> CoreScenario {
+pub fn c06(known: &Known, clients: &[C], keys: &[&str], with_data: bool) -> CoreScenario {
     let mut ops = vec![];
     for c in clients {
         for k in keys {
@@ -184,8 +184,18 @@ pub fn c06(known: &Known, clients: &[C], keys: &[&str]) -> CoreScenario {
     }
     ops.push(Op::Lock(A, s("x/?")));
     ops.push(Op::AcquireLock(A, s("#")));
+    if with_data {
+        // locks are advisory and live beside the data: writes and deletes of locked keys (by the
+        // holder and by others) go through and leave the lock where it is
+        ops.push(Op::Set(B, s("x"), json!(1)));
+        ops.push(Op::Set(A, s("x/y"), json!(1)));
+        ops.push(Op::Delete(B, s("x")));
+        ops.push(Op::Delete(A, s("x/y")));
+        ops.push(Op::PDelete(A, s("x/?")));
+        ops.push(Op::PDelete(B, s("?")));
+    }
     let setup = clients.iter().map(|c| Op::Connect(*c)).collect();
-    let probe = Probe { keys: vec![s("x")], patterns: vec![], parents: vec![None], parent_patterns: vec![] };
+    let probe = Probe { keys: vec![s("x"), s("x/y")], patterns: vec![], parents: vec![None, Some(s("x"))], parent_patterns: vec![] };
     CoreScenario::new("C06", setup, ops, probe, known.open_for("C06"))
 }
 
